@@ -349,6 +349,13 @@ pub fn run_c03(out: &mut Out, seed: u64, n: u64) {
         ctor_events(out, x);
         pte_and_idt_events(out, x);
     }
+    // pages built from table indices (all three sizes): start addresses in both halves
+    for &p4 in &[0u16, 1, 255, 256, 257, 511] {
+        for &p3 in &[0u16, 511] {
+            from_indices_events(out, p4, p3, 0, 0);
+            from_indices_events(out, p4, p3, 511, 511);
+        }
+    }
     let mut r = Rng::new(seed);
     for _ in 0..n / 8 {
         let x = r.wide();
